@@ -23,7 +23,8 @@ func TestMain(m *testing.M) {
 		Level: "exploration",
 		Rule: "rapid-generated histories (5..60 actions) over a growing graph (<= 14 nodes) of nodes.Value and parameter.Value sources and harness-defined nodes.Struct processors (2-input, 3-input, array-input + scalar input): add node, connect/reconnect/disconnect an input incl. array append/remove, set a source (also to the same value; parameter sources through ApplyMessage), read Value() of an arbitrary node, read State(). " +
 			"Oracle: (1) every read equals a from-scratch evaluation of the model graph; (2) a processor may execute during a read only if it never ran, or its own wiring changed, or a source/wiring in its transitive upstream closure changed since its last execution (logical clocks), and at most once per read; (3) Version() == number of executions (sources: number of sets) after every step; (4) State() is Processed exactly when the model says nothing upstream changed since the last execution. " +
-			"Non-trivial = a read of a node with >= 2 dependencies after at least one update; classes: diamond, array input, reconnect, disconnect. Distinct by action-list JSON. Failing histories are re-executed 20x by the replay path because the pinned-tree defect depended on Go map iteration order.",
+			"Non-trivial = a read of a node with >= 2 dependencies after at least one update; classes: diamond, array input, reconnect, disconnect. Distinct by action-list JSON. Failing histories are re-executed 20x by the replay path because the pinned-tree defect depended on Go map iteration order. " +
+			"Processors also include FE (returns an error together with its value for odd inputs) and FAA (two array inputs, two plain inputs); connectMany wires 9..40 array entries at once (class more-than-12-dependencies).",
 		Assumptions: []string{
 			"processors read all their connected inputs (a processor that skips an input leaves its upstream permanently stale, which the code treats as outdated; the property is stated over parameters and wiring)",
 			"graphs are acyclic (inputs only from earlier nodes)",
